@@ -279,3 +279,6 @@ def replay(cs, env):
     for c, cr in env.execute([cs]):
         judge(res, c, cr)
     return res
+
+
+RULE = RULE + ' A third of the random packs continue with the SAME Typification object after SubstituteBase / assignment (packing must depend on value and typification only).'
